@@ -530,16 +530,29 @@ def _run_fprime(ctx, rng):
         A = rng.normal(size=(k, inner)) * _lu(rng, 1e-2, 1e2)
         B = rng.normal(size=(inner, m)) * _lu(rng, 0.1, 5.0) / np.sqrt(r)
         c = rng.normal(size=inner)
-        fv = lambda xf: A @ np.sin(B @ xf + c)
-        Jex = (A * np.cos(B @ x + c)[None, :]) @ B
+        x_off = np.zeros(m)
+        if not single and rng.random() < 0.3:
+            # a function of RELATIVE coordinates evaluated far from the origin (positions in a large model, late times):
+            # x - x_off is exact for the nearby points the rule visits, so the function values - and the method's accuracy -
+            # are those at the origin, whereas x + h is not a representable number any more
+            far = _lu(rng, 1e2, 1e8)
+            if method != "cs":
+                # (the step has to stay well above the spacing of the numbers at x - a caller's obligation, not the method's)
+                far = min(far, h / (64 * U))
+            x_off = np.clip(rng.normal(size=m), -4, 4) * far
+            x = x_off + x
+            ctx.cls("fprime:relative_coordinates_far_from_origin")
+        xr = x - x_off
+        fv = lambda xf: A @ np.sin(B @ (xf - x_off) + c)
+        Jex = (A * np.cos(B @ xr + c)[None, :]) @ B
         aA, aB = np.abs(A), np.abs(B)
         M2 = aA @ (aB ** 2)              # bound of |d^2 f_j / dx_i^2|, shape (k, m)
         M3 = aA @ (aB ** 3)
-        ef = 4 * (m + 2) * U * (aA @ (2.0 + aB @ np.abs(x) + np.abs(c)))   # rounding of one evaluation, shape (k,)
-        zerr = 4 * (m + 2) * U * (aB @ np.abs(x) + np.abs(c))    # rounding of the argument B x + c
+        ef = 4 * (m + 2) * U * (aA @ (2.0 + aB @ np.abs(xr) + np.abs(c)))   # rounding of one evaluation, shape (k,)
+        zerr = 4 * (m + 2) * U * (aB @ np.abs(xr) + np.abs(c))    # rounding of the argument B x + c
         # rounding of the complex-step quotient AND of the harness' own 'exact' Jacobian
         csr = 16 * U * (aA @ aB) + 2 * (aA * zerr[None, :]) @ aB
-        par = {"A": A, "B": B, "c": c}
+        par = {"A": A, "B": B, "c": c, "x_off": x_off}
     elif fam == "poly":
         # f_j = sum_i W_ji x_i^3 + (V x)_j^2
         W = rng.normal(size=(k, m))
